@@ -44,6 +44,8 @@ EV_FRESH = ["Event.id", "Event.timestamp", "Event.duration", "Event.data", "Even
             "Event.duration!has", "Event.data!has", "Dict.map:JV"]
 
 MAXES_SAME = "ev_max(self) == old(ev_max(self)) and bk_max(self) == old(bk_max(self))"      # ids are never handed out again
+# C18: a write issued more than ten seconds after the previous flush is flushed before it returns
+C18_FLUSH = "not (self.enable_lazy_commit and old(clock_now() - self.last_commit) > timedelta(seconds=10)) or pending(self) == 0"
 BUCKETS_SAME = "all(bk_row(self, r) == old(bk_row(self, r)) for r in bucket_rowids(self))"
 EVENTS_SAME = "all(ev_row(self, i) == old(ev_row(self, i)) for i in event_ids(self))"
 
@@ -113,7 +115,7 @@ contract(
         "all((i == event_id and old(in_bucket(self, i, bucket_id)) and not ev_live(self, i)) "
         "    or (not (i == event_id and old(in_bucket(self, i, bucket_id))) and ev_row(self, i) == old(ev_row(self, i)))"
         "    for i in event_ids(self))",
-        BUCKETS_SAME, "lazy_inv(self)", MAXES_SAME,
+        BUCKETS_SAME, "lazy_inv(self)", MAXES_SAME, C18_FLUSH,
     ],
     modifies=DBMOD, writes_fresh=CUR_FRESH, raises=[],
 )
@@ -128,7 +130,7 @@ contract(
         "     and ev_bucketrow(self, i) == old(ev_bucketrow(self, i)))"
         "    or (not (i == event_id and old(in_bucket(self, i, bucket_id))) and ev_row(self, i) == old(ev_row(self, i)))"
         "    for i in event_ids(self))",
-        BUCKETS_SAME, "lazy_inv(self)", EV_UNCHANGED, MAXES_SAME,
+        BUCKETS_SAME, "lazy_inv(self)", EV_UNCHANGED, MAXES_SAME, C18_FLUSH,
     ],
     modifies=DBMOD, writes_fresh=CUR_FRESH, raises=[],
 )
@@ -144,7 +146,7 @@ contract(
         "     and ev_bucketrow(self, i) == old(ev_bucketrow(self, i)))"
         "    or (not old(newest(self, i, bucket_id)) and ev_row(self, i) == old(ev_row(self, i)))"
         "    for i in event_ids(self))",
-        BUCKETS_SAME, "lazy_inv(self)", EV_UNCHANGED, MAXES_SAME,
+        BUCKETS_SAME, "lazy_inv(self)", EV_UNCHANGED, MAXES_SAME, C18_FLUSH,
     ],
     modifies=DBMOD, writes_fresh=CUR_FRESH, raises=[],
 )
@@ -160,7 +162,7 @@ contract(
         "event.id == old(ev_max(self)) + 1 and not old(ev_live(self, ev_max(self) + 1)) and ev_max(self) == event.id",
         "in_bucket(self, event.id, bucket_id) and holds(self, event.id, event)",
         "all(i == event.id or ev_row(self, i) == old(ev_row(self, i)) for i in event_ids(self))",
-        BUCKETS_SAME, "lazy_inv(self)", EV_UNCHANGED, "bk_max(self) == old(bk_max(self))",
+        BUCKETS_SAME, "lazy_inv(self)", EV_UNCHANGED, "bk_max(self) == old(bk_max(self))", C18_FLUSH,
     ],
     exc_ensures={"IntegrityError": ["not old(bucket_exists(self, bucket_id))", EVENTS_SAME, BUCKETS_SAME, "pending(self) == old(pending(self))"]},
     modifies=DBMOD + ["event.id"], writes_fresh=CUR_FRESH, raises=["IntegrityError"],
@@ -416,6 +418,7 @@ contract(
     modifies=["alloc"], writes_fresh=CUR_FRESH + ["Dict.map:JV", "Dict.map:Dict[str,JV]"], raises=[],
     loops={0: dict(index="k", invariant=[
         "all(bucket_exists(self, b) for b in buckets)",
+        "all(allocated(buckets[b]) and 'data' in buckets[b] and allocated(jv_dict(buckets[b]['data'])) for b in buckets)",
         "all(not bk_live(self, r) or not any(__seq[j][0] == bk_id(self, r) for j in range(k))"
         "    or (bk_id(self, r) in buckets and describes(buckets[bk_id(self, r)], self, r)) for r in bucket_rowids(self))",
     ])},
